@@ -213,6 +213,15 @@ def rule_bounded(rep: Report, repo: Repo) -> None:
                             except Exception:      # noqa: BLE001
                                 pass
             rep.check(ok, 'C10.BOUNDED', f'_init_memory:{it}', why, f'{R}:{n.lineno}')
+    # the compressed payload: a one-shot decompression returns whatever the stream expands to (a 20 KB file -> hundreds of MB) before a
+    # single segment has been validated - bounded only when the decoder is told how much the segment table can reference (max_length)
+    dd = repo.func(R, 'Reader._decompress_data')
+    one_shot = [c for c in calls(dd) if dotted(c.func) == 'lzma.decompress']
+    bounded_dec = [c for c in calls(dd) if dotted(c.func).split('.')[-1] == 'decompress' and any(k.arg == 'max_length' for k in c.keywords)]
+    rep.check(not one_shot or bool(bounded_dec), 'C10.BOUNDED', '_decompress_data:output size', 'the decoder is given an output bound' if not one_shot or bounded_dec else
+              '`lzma.decompress(..)` expands the payload without any bound and before the segment table is validated: allocation unrelated to '
+              'the size of the file (a 20 KB file with an invalid segment table costs ~290 MB before it is rejected)', f'{R}:{dd.lineno} Reader._decompress_data',
+              expected='LZMADecompressor.decompress(.., max_length=<what the segments reference>)')
     thr = repo.const('flipjump/fjm/fjm_consts.py', '_reserved_dict_threshold')
     rep.check(isinstance(thr, int) and 0 < thr <= 1 << 20, 'C10.BOUNDED', '_reserved_dict_threshold', str(thr), 'flipjump/fjm/fjm_consts.py',
               expected='a small constant')
